@@ -46,6 +46,11 @@ def concatInputs : List Tree → List (Option Sel) → List Bool → List Tree
   | t :: ts, s :: ss, d :: ds => if d then concatInputs ts ss ds else wrap t s :: concatInputs ts ss ds
   | _, _, _ => []
 
+/-- the columns a list selection `g[[…]]` makes the chunk functions read from the input frame (D96) -/
+def sliceCols : Slice → List Name
+  | .many cs => cs
+  | _ => []
+
 /-- one application of the `_simplify_up` rule of the operator below a column projection; `deps`: the further live
     dependents of that operator (their `_projection_columns`) -/
 def pushdown (deps : List Dep) : Tree → Option Tree
@@ -69,8 +74,8 @@ def pushdown (deps : List Dep) : Tree → Option Tree
            (Dx.Cols.affix true suf.length F p deps).map (fun rw => reapply rw.keep (.un (.addSuffix suf) rt (wrap t (child0 rw))))
          | .setIndex c d =>   -- SetIndex._simplify_up: additional_columns=[_other]
            (Dx.Cols.keyed F [c] p deps).map (fun rw => reapply rw.keep (.un (.setIndex c d) rt (wrap t (child0 rw))))
-         | .gbAgg keys sl f =>  -- groupby_projection: additional_columns=_by_columns
-           (Dx.Cols.keyed F keys p deps).map (fun rw => reapply rw.keep (.un (.gbAgg keys sl f) rt (wrap t (child0 rw))))
+         | .gbAgg keys sl f =>  -- groupby_projection: additional_columns=_by_columns (+ a list `_slice`)
+           (Dx.Cols.keyed F (keys ++ sliceCols sl) p deps).map (fun rw => reapply rw.keep (.un (.gbAgg keys sl f) rt (wrap t (child0 rw))))
          | .resetIndex d =>
            (Dx.Cols.resetIndex F d (indexNamed (declT t)) p deps).map
              (fun rw => reapply rw.keep (.un (.resetIndex rw.drop) rt (wrap t (child0 rw))))
